@@ -3,6 +3,7 @@ package harness
 import (
 	"bytes"
 	"fmt"
+	"strings"
 
 	"verifsim/ref"
 )
@@ -285,7 +286,7 @@ func checkC04(r *Result) []Violation {
 				if e.Who == "eventer" {
 					seen++
 				}
-			case KSrvClose, KFin, KRst:
+			case KFin, KRst:
 				closed = true
 			case KQuiet:
 				if !closed && seen < delivered {
@@ -307,8 +308,31 @@ func foreignCrash(r *Result) string {
 	return ""
 }
 
+// crashOnWellFormed: the scenarios of C04, C05, C06, C09, C11, C12, C14, C15, C16, C19 and C20 contain only
+// well-formed traffic; a panic in a server goroutine there breaks the property's own promise (messages are
+// delivered / answered / stored), so it is reported under that property, identified by the crash site.
+func crashOnWellFormed(prop string, r *Result) []Violation {
+	for _, c := range r.Crashes {
+		sig := crashSig(c.Frames, c.Value)
+		return []Violation{{Prop: prop, Rule: prop + ".server_panic_on_wellformed_input", Sig: prop + ".server_panic_on_wellformed_input:" + sig,
+			Msg:  "a server goroutine panicked although every client behaved well: " + c.Value + "; stack: " + strings.Join(c.Frames, " < "),
+			Step: c.Step}}
+	}
+	return nil
+}
+
+// withCrashRule wraps a property's oracle with crashOnWellFormed.
+func withCrashRule(prop string, check func(*Result) []Violation) func(*Result) []Violation {
+	return func(r *Result) []Violation {
+		if v := crashOnWellFormed(prop, r); v != nil {
+			return v
+		}
+		return check(r)
+	}
+}
+
 func init() {
-	register(&propDef{ID: "C04", Gen: genC04, Enum: enumC04, Check: checkC04, Foreign: foreignCrash,
+	register(&propDef{ID: "C04", Gen: genC04, Enum: enumC04, Check: withCrashRule("C04", checkC04),
 		Interesting: func(r *Result) bool {
 			// non-trivial: at least one frame was split across reads or shared a read with another frame
 			for _, a := range r.Plan.Actors {
